@@ -687,9 +687,38 @@ def r34b_map_transpose_try(text, log):
     return text
 
 
+def r20s_let_try_into(text, log):
+    """R20s: `let N: T = CHAIN.try_into()?;` -> `let N: T = T::try_from(CHAIN)?;` (std blanket impl of TryInto; the target type is the
+    one the `let` is annotated with).  At least one such statement must exist."""
+    n = 0
+    while True:
+        m = L.mask(text)
+        mt = re.search(r"\blet\s+(\w+)\s*:\s*(\w+)\s*=\s*", m)
+        found = None
+        for mt in re.finditer(r"\blet\s+(\w+)\s*:\s*(\w+)\s*=\s*", m):
+            semi = L.depth0_find(m, mt.end(), len(m), ";")
+            if semi < 0:
+                continue
+            tail = re.search(r"\s*\.\s*try_into\(\)\s*\?\s*$", m[mt.end():semi])
+            if tail:
+                found = (mt, semi, tail)
+                break
+        if not found:
+            break
+        mt, semi, tail = found
+        chain = re.sub(r"\s+", " ", text[mt.end():mt.end() + tail.start()]).replace(" .", ".").strip()
+        after = f"let {mt.group(1)}: {mt.group(2)} = {mt.group(2)}::try_from({chain})?"
+        log.append({"rule": "R20s-let-try-into", "before": re.sub(r"\s+", " ", text[mt.start():semi]), "after": after})
+        text = text[:mt.start()] + after + text[semi:]
+        n += 1
+    if n == 0:
+        raise Lost("R20s: no `let N: T = CHAIN.try_into()?;` statement")
+    return text
+
+
 STRUCTURAL = {"R11c": r11_closure, "R14": r14_all, "R16m": r16_drop_methods, "R12d": r12_debug_assert, "R5": r5_for_bytes, "R7": r7_mut_self, "R0": r0_named_return, "R4": r4_format, "R12": r12_unreachable,
               "R6": r6_for_enumerate, "R10": r10_drop_loop, "R25": r25_hashmap_iter_mut, "R25b": r25b_hashmap_into_iter, "R25c": r25c_hashmap_retain, "R25d": r25d_amount_iter, "R26": r26_forward_ref_op, "R27": r27_entry_match, "R28": r28_nested_entry_binding, "R29": r29_entry_or_insert_with,
-              "R30": r30_flat_map_filter_map, "R34b": r34b_map_transpose_try, "R6b": r6b_for_tuple_in_vec, "R25e": r25e_values_mut}
+              "R30": r30_flat_map_filter_map, "R34b": r34b_map_transpose_try, "R20s": r20s_let_try_into, "R6b": r6b_for_tuple_in_vec, "R25e": r25e_values_mut}
 
 
 def apply_rewrites(text, rewrites, log):
